@@ -24,6 +24,7 @@ import MajoranaVerif.Proofs.Mvp3Spec
 import MajoranaVerif.Proofs.Mvp4Spec
 import MajoranaVerif.Proofs.Mvp4Terminates
 import MajoranaVerif.Proofs.Mvp5Total
+import MajoranaVerif.Proofs.Mvp60Witness2
 open GoInt Model Model.Seq Proofs.Refine
 
 namespace Props.C01
@@ -437,5 +438,58 @@ example : ∃ ticks hk,
       intro why hc
       rw [h] at hc
       cases hc)
+
+end Props.C01
+
+/-! ## MVP-6.0 (package M60): what the first superscalar variant computes on the witnesses of its known findings
+
+Proved counterexamples on `Model.Mvp60` (the cycle-accurate model of `proc/mvp6-0`, tied to the Go machine on every
+generated case): kernel evaluation of the model next to the unpipelined machine on the same program and state
+(memory: 64 or 128 bytes of `0x11`).  They pin the WRONG behaviours: a change of the Go code that repairs one of them
+breaks the tie first and re-opens the theorem. -/
+namespace Props.C01
+
+/-- **a pipeline flush cancels an OLDER load (MVP-6.0 with two or more execute units; found with the model).**
+`lb a1, 0(zero); bnez s0, l3; addi a3, zero, 5; l3:` with `s0 = 1`: the unpipelined machine and the one-unit machine end
+with `a1 = 0x11`; the two-unit machine ends NORMALLY after 319 cycles with `a1 = 0`, having executed one instruction (the
+branch): the flush of the taken branch clears the coroutine of the execute unit in which the older load waits for memory. -/
+theorem mvp60_flush_drops_older_load :
+    (Model.Seq.runMvp1 Proofs.Mvp60Witness.dropApp ⟨Proofs.Mvp60Witness.ctxS0 64, 0⟩ 10).final.ctx.Registers.get1 11 = 0x11#32 ∧
+    (Model.Mvp60.run Proofs.Mvp60Witness.dropApp (Proofs.Mvp60Witness.ctxS0 64) 1 1 1000).final.ctx.Registers.get1 11 = 0x11#32 ∧
+    (Model.Mvp60.run Proofs.Mvp60Witness.dropApp (Proofs.Mvp60Witness.ctxS0 64) 2 2 1000).halt = some .offEnd ∧
+    (Model.Mvp60.run Proofs.Mvp60Witness.dropApp (Proofs.Mvp60Witness.ctxS0 64) 2 2 1000).final.executed = 1 ∧
+    (Model.Mvp60.run Proofs.Mvp60Witness.dropApp (Proofs.Mvp60Witness.ctxS0 64) 2 2 1000).final.ctx.Registers.get1 11 = 0#32 := by
+  obtain ⟨_, a, _⟩ := Proofs.Mvp60Witness.obsSeq_eq Proofs.Mvp60Witness.drop_seq
+  obtain ⟨_, _, _, b, _⟩ := Proofs.Mvp60Witness.obs_eq Proofs.Mvp60Witness.drop_p1
+  obtain ⟨c, _, d, e, _⟩ := Proofs.Mvp60Witness.obs_eq Proofs.Mvp60Witness.drop_p2
+  exact ⟨a, b, c, d, e⟩
+
+/-- **KF-ooo-mem on the model.**  `lb t2, 7(zero); sh zero, 4(zero)`: the unpipelined machine and the one-unit machine end
+with `Memory[4..5] = 0`; on the two-unit machine the store overtakes the load, the load's line is fetched from memory just
+before the store arrives there, and the final flush of L3 writes the stale line back: the run ends normally with
+`Memory[0..7]` unchanged — the store is lost. -/
+theorem mvp60_loses_store :
+    (Model.Seq.runMvp1 Proofs.Mvp60Witness.memApp ⟨Proofs.Mvp60Witness.ctx0 128, 0⟩ 10).final.ctx.Memory.take 8 = Proofs.Mvp60Witness.stored ∧
+    (Model.Mvp60.run Proofs.Mvp60Witness.memApp (Proofs.Mvp60Witness.ctx0 128) 1 1 1000).final.ctx.Memory.take 8 = Proofs.Mvp60Witness.stored ∧
+    (Model.Mvp60.run Proofs.Mvp60Witness.memApp (Proofs.Mvp60Witness.ctx0 128) 2 2 1000).halt = some .offEnd ∧
+    (Model.Mvp60.run Proofs.Mvp60Witness.memApp (Proofs.Mvp60Witness.ctx0 128) 2 2 1000).final.ctx.Memory.take 8 = Proofs.Mvp60Witness.m11 := by
+  obtain ⟨_, _, _, a⟩ := Proofs.Mvp60Witness.obsSeq_eq Proofs.Mvp60Witness.mem_seq
+  obtain ⟨_, _, _, _, _, b⟩ := Proofs.Mvp60Witness.obs_eq Proofs.Mvp60Witness.mem_p1
+  obtain ⟨c, _, _, _, _, d⟩ := Proofs.Mvp60Witness.obs_eq Proofs.Mvp60Witness.mem_p2
+  exact ⟨a, b, c, d⟩
+
+/-- **the pinned witness of KF-ooo-shadow is executed correctly by MVP-6.0.**  `lw t5, 104(zero); bnez t5, l3; auipc a4, …;
+l3:`: the two-unit machine executes the `auipc` in the shadow of the taken branch (three instructions executed) but drops
+its result in the drain before the flush: `a4` stays 0, as on the unpipelined machine.  (MVP-6.0 issues in order and the
+branch waits for the load; the finding's witness variant is MVP-6.1.) -/
+theorem mvp60_shadow_witness_correct :
+    (Model.Seq.runMvp1 Proofs.Mvp60Witness.shadowApp ⟨Proofs.Mvp60Witness.ctx0 128, 0⟩ 10).final.ctx.Registers.get1 14 = 0#32 ∧
+    (Model.Mvp60.run Proofs.Mvp60Witness.shadowApp (Proofs.Mvp60Witness.ctx0 128) 2 2 1000).halt = some .offEnd ∧
+    (Model.Mvp60.run Proofs.Mvp60Witness.shadowApp (Proofs.Mvp60Witness.ctx0 128) 2 2 1000).final.executed = 3 ∧
+    (Model.Mvp60.run Proofs.Mvp60Witness.shadowApp (Proofs.Mvp60Witness.ctx0 128) 2 2 1000).final.ctx.Registers.get1 30 = 0x11111111#32 ∧
+    (Model.Mvp60.run Proofs.Mvp60Witness.shadowApp (Proofs.Mvp60Witness.ctx0 128) 2 2 1000).final.ctx.Registers.get1 14 = 0#32 := by
+  obtain ⟨_, _, a, _⟩ := Proofs.Mvp60Witness.obsSeq_eq Proofs.Mvp60Witness.shadow_seq
+  obtain ⟨b, _, c, d, e, _⟩ := Proofs.Mvp60Witness.obs_eq Proofs.Mvp60Witness.shadow_p2
+  exact ⟨a, b, c, d, e⟩
 
 end Props.C01
